@@ -750,7 +750,10 @@ func mutate(t *rapid.T, src string, n int, biasFirstLine bool) string {
 			pos = rapid.IntRange(0, limit).Draw(t, "pos")
 		}
 		switch rapid.IntRange(0, 5).Draw(t, "edit") {
-		case 0: // cut
+		case 0: // cut (never down to the empty input, which the generators produce on purpose only)
+			if pos == 0 && len(rs) > 1 {
+				pos = 1 + len(rs)/2
+			}
 			rs = rs[:pos]
 		case 1: // insert a token
 			tok := []rune(rapid.SampledFrom(junkTokens).Draw(t, "tok"))
@@ -960,17 +963,22 @@ var concInputs = []string{"/", "(1+2", "[1,2", "'abc", "", "  ", "力量 = (", "
 
 var sink atomic.Int64
 
+type key struct {
+	lang int
+	in   string
+}
+
+// aloneTexts caches the text a (language, input) pair yields when no other VM
+// runs; it is only touched by the goroutine that runs the section.
+var aloneTexts = map[key]string{}
+
 // checkConc runs every VM of the plan in its own goroutine and compares each
 // error text with the text the same VM configuration produces alone.
 // With serial set the goroutines run one after the other (used by the race-detector
 // section while the shared-language race is an open finding: every parallel Parse
 // would be reported again and the Go test framework fails a test that raced).
 func checkConc(c ConcCase, s *rt.Section, serial bool) (*rt.Failure, bool) {
-	type key struct {
-		lang int
-		in   string
-	}
-	alone := map[key]string{}
+	alone := aloneTexts
 	mixed := false
 	for _, v := range c.VMs {
 		if v.Lang != c.VMs[0].Lang {
@@ -1130,18 +1138,18 @@ func TestProp(t *testing.T) {
 			enumerate(s, run, L)
 		})
 
-	run.Check("gen", 60000, 900000, genRule, func(t *rapid.T, s *rt.Section) {
+	run.Check("gen", 48000, 800000, genRule, func(t *rapid.T, s *rt.Section) {
 		c, kind := drawGenCase(t)
 		judge(t, s, c, kind)
 	})
 
-	run.Check("mut", 40000, 600000, mutRule, func(t *rapid.T, s *rt.Section) {
+	run.Check("mut", 30000, 500000, mutRule, func(t *rapid.T, s *rt.Section) {
 		c, kind := drawMutCase(t)
 		judge(t, s, c, kind)
 	})
 
-	run.Check("conc", 1500, 30000, concRule, func(t *rapid.T, s *rt.Section) { concProp(t, s, false) })
-	run.Check("race", 600, 12000, concRule+"; built with the race detector (while finding C19-F07 is open its avoid switch parallel_parse makes the VMs of a plan run one after the other)",
+	run.Check("conc", 600, 16000, concRule, func(t *rapid.T, s *rt.Section) { concProp(t, s, false) })
+	run.Check("race", 250, 4000, concRule+"; built with the race detector (while finding C19-F07 is open its avoid switch parallel_parse makes the VMs of a plan run one after the other)",
 		func(t *rapid.T, s *rt.Section) { concProp(t, s, true) })
 }
 
@@ -1182,7 +1190,11 @@ func TestReplay(t *testing.T) {
 		if err := json.Unmarshal(b, &c); err != nil {
 			return s.NewFailure("replay", "replay:bad-case", nil, err.Error(), "")
 		}
-		for i := 0; i < 300; i++ { // schedule dependent
+		attempts := 300 // the oracle's verdict is schedule dependent
+		if s.Name == "race" {
+			attempts = 10 // the detector judges by happens-before, not by luck
+		}
+		for i := 0; i < attempts; i++ {
 			if f, _ := checkConc(c, s, false); f != nil {
 				return f
 			}
